@@ -288,6 +288,8 @@ type schedThread struct {
 	specAtLoad   []specTable // committed state when the root was loaded
 	otherRev     map[int]uint64
 	otherCnt     map[int]int
+	otherInit    map[int]string // Initialized / PendingInitializers of unheld tables as first seen through the txn
+	initFlips    []string
 }
 
 type specTable struct {
@@ -518,7 +520,7 @@ func (e *schedExec) threadBody(tid int) {
 	th.handle = wtxn // keep it reachable: an unfinished handle's finalizer panics
 	// every table registered before the locks were taken is readable through the
 	// transaction, at the state the root had when it was loaded
-	th.otherRev, th.otherCnt = map[int]uint64{}, map[int]int{}
+	th.otherRev, th.otherCnt, th.otherInit = map[int]uint64{}, map[int]int{}, map[int]string{}
 	for t := 0; t < th.mustSee && t < len(e.tables); t++ {
 		if slices.Contains(th.tables, t) {
 			continue
@@ -528,6 +530,8 @@ func (e *schedExec) threadBody(tid int) {
 		if o, _, ok := tbl.Get(wtxn, ctrIndex.Query("ctr")); ok {
 			th.otherCnt[t] = o.Val
 		}
+		ini, _ := tbl.Initialized(wtxn)
+		th.otherInit[t] = fmt.Sprintf("%v %v", ini, tbl.PendingInitializers(wtxn))
 	}
 	for _, t := range th.tables {
 		tbl := e.tables[t]
@@ -558,6 +562,15 @@ func (e *schedExec) threadBody(tid int) {
 		}
 	}
 	e.park("ops-done")
+	// the transaction's view of the tables it does not hold is frozen: their initialization
+	// state read now (other transactions may have committed meanwhile) is what it was
+	for t, was := range th.otherInit {
+		tbl := e.tables[t]
+		ini, _ := tbl.Initialized(wtxn)
+		if now := fmt.Sprintf("%v %v", ini, tbl.PendingInitializers(wtxn)); now != was {
+			th.initFlips = append(th.initFlips, fmt.Sprintf("table %d (not held): Initialized/PendingInitializers through the write transaction went from [%s] to [%s]", t, was, now))
+		}
+	}
 	if th.commit {
 		th.result = wtxn.Commit()
 	} else {
@@ -794,6 +807,10 @@ func (e *schedExec) record(w <-chan struct{}, name string, table int, rev uint64
 
 // onEvent: bookkeeping + the oracles that are tied to protocol points
 func (e *schedExec) onEvent(o *Out, tid int, th *schedThread, prev, label string) {
+	for _, m := range th.initFlips {
+		o.Fail("C19", "init-state-changed-within-txn", nil, fmt.Sprintf("thread %d: %s", tid, m))
+	}
+	th.initFlips = nil
 	switch {
 	case strings.HasPrefix(label, "after-lock "):
 		n, _ := strconv.Atoi(label[len("after-lock "):])
